@@ -14,7 +14,7 @@
   Everything is stated for *all* states, operations and histories — no bound on document size or
   history length.
 -/
-import Gedcom.Lemmas.CacheIso
+import Gedcom.Lemmas.CacheMono
 import Gedcom.Props.C01
 namespace Gedcom.C13
 open Gedcom Gedcom.Cache
@@ -76,54 +76,91 @@ theorem views_fresh_after (heap : List NodeRec) (roots : List Id)
     v.ok (abs s) = true → (step Cache.flags s (.read v)).2 = specView (abs s) v :=
   fun hok => views_fresh _ v (coherent_run ops _ (coherent_init heap roots hr hk)) hok
 
-/-
-  Full statement (not yet a theorem):
+/-! ## a decoded document stays a forest, and its views are those of a fresh decode of its text -/
 
-    theorem views_fresh_decode (s₀ := initOf heap roots, well-formed and tree-shaped) (ops : List Op)
-        (s := (run Cache.flags s₀ ops).1) (v : View) (hok : v.ok (abs s)) (v's subject attached)
-        (hl : C01.Legal ⟨bom, toForest (abs s)⟩) (o : Dec.Opts) :
-        ∃ d φ, Dec.decode o (Dec.encode ⟨bom, toForest (abs s)⟩) = .ok d ∧
-          ((step Cache.flags s (.read v)).2).map φ = (step Cache.flags (ofForest d.nodes) (.read (v.map φ))).2
+/-- The state the decoder builds from any forest is coherent and every child has a larger id than
+    its parent (preorder layout). -/
+theorem tree_init (f : Forest) : TInv (ofForest f) := tinv_init f
 
-  i.e. without `hwf` and `hiso` below.  What is proved is the same statement with these two
-  structural facts about `ofForest (toForest (abs s))` as explicit hypotheses.
--/
+/-- Every operation keeps both: caches coherent, and the document a forest (an edit only drops
+    children or attaches a node it has just allocated). -/
+theorem tree_step (s : St) (op : Op) (h : TInv s) : TInv (step Cache.flags s op).1 := by
+  rw [flags_eq]
+  unfold step
+  split
+  · rename_i hok
+    exact tinv_exec h op hok
+  · exact h
 
-/-- **The views of a long-lived document are those of a fresh decode of its text** (C01 link),
-    partial: two structural facts are hypotheses.
+/-- … hence after every finite history from a decoded document. -/
+theorem tree_run (ops : List Op) : ∀ (s : St), TInv s → TInv (run Cache.flags s ops).1 := by
+  induction ops with
+  | nil => intro s h; exact h
+  | cons o os ih =>
+    intro s h
+    exact ih _ (tree_step s o h)
 
-    `toForest (abs s)` is the forest `Document.String()` writes; by C01 (`decode_encode`) decoding
-    the encoder's text gives exactly that forest back, under every decoder option; `ofForest` is the
-    state `NewDocumentFromString` builds from it.  Every view read on the live document `s` — after
-    any history, with whatever is in its caches — is, node for node and in order, the view read on
-    that freshly decoded document, *provided*
+/-- **The views of a long-lived document are those of a fresh decode of its text** (C01 link).
 
-    * `hwf`  — the heap that preorder allocation (`allocNode`) builds from `toForest (abs s)` is
-               well-formed (every root and child id allocated), and
-    * `hiso` — that heap is the attached part of `abs s` renumbered by `φ` (same roots, tags,
-               values, pointers and child lists up to `φ`).
+    `toForest (abs s)` is the forest `Document.String()` writes (`string_is_encode`); by C01
+    (`decode_encode`) decoding the encoder's text gives exactly that forest back, under every
+    decoder option; `ofForest` is the state `NewDocumentFromString` builds from it (preorder
+    layout).  `psi (abs s)` sends a node of the fresh document to the live node at the same
+    position.  Then, with whatever the live document has in its caches:
 
-    Both hold exactly when the attached part of `abs s` is a tree (no node under two parents, no
-    cycle, depth below `heap.length`).  Discharging them needs: duplicate-free `SetNodes` arguments
-    in `Op.ok`, a tree invariant carried through every primitive edit, and an induction over
-    `allocNode`/`toNode` relating preorder positions to the old ids.  Until then they are checked at
-    run time instead: the driver's `rebuild` request evaluates the *conclusion* (every dumped view
-    of the live state against the same views of `ofForest (toForest (abs s))`, by position) at the
-    end of every history of every run, on the model, and the oracle (S) evaluates it on the real
-    decoder after every step. -/
-theorem views_fresh_decode_partial (s : St) (h : Inv s) (v : View) (hok : v.ok (abs s) = true)
-    (hsub : ∀ n, v.subject = some n → Att (abs s) n)
-    (bom : Bool) (o : Dec.Opts) (hl : C01.Legal ⟨bom, toForest (abs s)⟩)
-    (φ : Id → Id)
-    (hwf : AWF (abs (ofForest (toForest (abs s)))))
-    (hiso : Iso φ (abs s) (abs (ofForest (toForest (abs s))))) :
+    * every view that can be asked of the fresh document answers, node for node and in order
+      (under `psi`), what the same view answers on the live document at the corresponding node;
+    * every attached record of the live document is the `psi`-image of a fresh node, so this covers
+      every view of every record the text contains.
+
+    No structural hypothesis is left: the two facts that `views_fresh_decode_partial` used to assume
+    (the re-allocated heap is well-formed and is the live heap renumbered) are `ofForest_awf` and
+    `fresh_iso`, and what the latter needs — the live heap has no cycle — follows from `TInv`,
+    which `tree_run` establishes for every state reachable from a decoded document.  `Legal` is C01's
+    hypothesis on the strings (no line breaks in values, …), not a structural one. -/
+theorem views_fresh_decode (s : St) (h : TInv s) (bom : Bool) (o : Dec.Opts)
+    (hl : C01.Legal ⟨bom, toForest (abs s)⟩) :
     ∃ d : Dec.Doc, Dec.decode o (Dec.encode ⟨bom, toForest (abs s)⟩) = .ok d ∧
-      ((step Cache.flags s (.read v)).2).map φ =
-        (step Cache.flags (ofForest d.nodes) (.read (v.map φ))).2 := by
-  refine ⟨⟨bom, toForest (abs s)⟩, C01.decode_encode _ hl o, ?_⟩
-  have hinv : Inv (ofForest (toForest (abs s))) := init_inv _ _ hwf
-  rw [views_fresh s v h hok, views_fresh _ (v.map φ) hinv (ok_iso hiso v hsub hok),
-      specView_iso hiso v hsub]
+      (∀ v : View, v.ok (abs (ofForest d.nodes)) = true →
+        ((step Cache.flags (ofForest d.nodes) (.read v)).2).map (psi (abs s)) =
+          (step Cache.flags s (.read (v.map (psi (abs s))))).2) ∧
+      (∀ n, Att (abs s) n → ∃ k, k < (ofForest d.nodes).heap.length ∧ psi (abs s) k = n) := by
+  refine ⟨⟨bom, toForest (abs s)⟩, C01.decode_encode _ hl o, ?_, ?_⟩
+  · intro v hok
+    have w := h.1.1.awf
+    have iso := fresh_iso w h.2.ranked
+    have wf := fresh_awf (abs s)
+    have hinv : Inv (ofForest (toForest (abs s))) := init_inv _ _ wf
+    have hs : ∀ n, v.subject = some n → n < (abs (ofForest (toForest (abs s)))).heap.length := by
+      intro n hn
+      cases v with
+      | nodesWithTag m t => cases hn; exact of_decide_eq_true hok
+      | individuals => cases hn
+      | families => cases hn
+      | byPointer p => cases hn
+      | indFamilies i => cases hn; exact wf.roots _ (isIndi_iff.mp hok).1
+      | spouses i => cases hn; exact wf.roots _ (isIndi_iff.mp hok).1
+      | parents i => cases hn; exact wf.roots _ (isIndi_iff.mp hok).1
+      | children i => cases hn; exact wf.roots _ (isIndi_iff.mp hok).1
+      | husband f => cases hn; exact tag_lt (isFam_iff.mp hok) tFAM_ne
+      | wife f => cases hn; exact tag_lt (isFam_iff.mp hok) tFAM_ne
+      | famChildren f => cases hn; exact tag_lt (isFam_iff.mp hok) tFAM_ne
+    rw [views_fresh _ v hinv hok, views_fresh s _ h.1 (ok_iso iso v hs hok), specView_iso iso v hs]
+  · intro n hn
+    exact att_psi h.1.1.awf h.2.ranked hn
+
+/-- … in particular after any history on any decoded document. -/
+theorem views_fresh_decode_run (f : Forest) (ops : List Op) (bom : Bool) (o : Dec.Opts)
+    (hl : C01.Legal ⟨bom, toForest (abs (run Cache.flags (ofForest f) ops).1)⟩) :
+    ∃ d : Dec.Doc,
+      Dec.decode o (Dec.encode ⟨bom, toForest (abs (run Cache.flags (ofForest f) ops).1)⟩) = .ok d ∧
+      (∀ v : View, v.ok (abs (ofForest d.nodes)) = true →
+        ((step Cache.flags (ofForest d.nodes) (.read v)).2).map (psi (abs (run Cache.flags (ofForest f) ops).1)) =
+          (step Cache.flags (run Cache.flags (ofForest f) ops).1
+            (.read (v.map (psi (abs (run Cache.flags (ofForest f) ops).1))))).2) ∧
+      (∀ n, Att (abs (run Cache.flags (ofForest f) ops).1) n →
+        ∃ k, k < (ofForest d.nodes).heap.length ∧ psi (abs (run Cache.flags (ofForest f) ops).1) k = n) :=
+  views_fresh_decode _ (tree_run ops _ (tree_init f)) bom o hl
 
 /-- A read leaves the document (hence its GEDCOM text) unchanged … -/
 theorem reads_keep_document (s : St) (op : Op) (h : Inv s) (hr : op.isRead = true) :
@@ -245,19 +282,15 @@ example : Inv demoInit := coherent_init _ _ (by decide) (by
   | 1 => simp [Abs.kids, demoHeap] at hc
   | n + 2 => simp [Abs.kids, demoHeap] at hc)
 
-/-- the hypotheses of `views_fresh_decode_partial` are satisfiable: the demo document is what its own
-    forest decodes to, with `φ = id` -/
-theorem demo_awf : AWF (abs demoInit) := ⟨by decide, by
-  intro n c hc
-  match n with
-  | 0 => simp [Abs.kids, demoHeap, demoInit, initOf, abs] at hc; subst hc; decide
-  | 1 => simp [Abs.kids, demoHeap, demoInit, initOf, abs] at hc
-  | n + 2 => simp [Abs.kids, demoHeap, demoInit, initOf, abs] at hc⟩
-
-example : abs (ofForest (toForest (abs demoInit))) = abs demoInit := by rfl
-example : Iso id (abs demoInit) (abs (ofForest (toForest (abs demoInit)))) := by
-  have e : abs (ofForest (toForest (abs demoInit))) = abs demoInit := by rfl
-  rw [e]; exact Iso.refl demo_awf
+/-- `views_fresh_decode` is about something: a decoded two-node document, edited -/
+def demoForest : Forest := [.mk tINDI [] [73, 49] [.mk tNAME [74] [] []]]
+example : abs (ofForest demoForest) = abs demoInit := by rfl
+example : TInv (run Cache.flags (ofForest demoForest) [.read (.nodesWithTag 0 tNAME), .addNode 0 tNAME [75] [],
+    .deleteNode 0 1]).1 := tree_run _ _ (tree_init _)
+example : (abs (run Cache.flags (ofForest demoForest) [.addNode 0 tNAME [75] [], .deleteNode 0 1]).1).kids 0 = [2] := by
+  decide
+example : psi (abs (run Cache.flags (ofForest demoForest) [.addNode 0 tNAME [75] [], .deleteNode 0 1]).1) 1 = 2 := by
+  decide
 
 example : (View.nodesWithTag 0 tNAME).ok (abs demoInit) = true := by decide
 example : (Op.addChild 0 1).ok (abs (initOf childHeap [0, 1])) = true := by decide
